@@ -807,10 +807,14 @@ class Model(Object):
 
                 if context:
                     if obj_coef != 0:
+                        # resolve objective and variables when undoing, they
+                        # may have been replaced in the meantime
                         context(
                             partial(
-                                self.solver.objective.set_linear_coefficients,
-                                {forward: obj_coef, reverse: -obj_coef},
+                                set_objective,
+                                self,
+                                {reaction: obj_coef},
+                                additive=True,
                             )
                         )
 
